@@ -595,7 +595,25 @@ def record_swarm(cfg):
         a.mutator.probability = cfg["pm"]
     init_rec = {"ev": {}, "order": [], "draws": [], "init": True}
     recs = []
-    st = {"cur": init_rec, "in_vel": False, "in_w": False, "bucket": None}
+    st = {"cur": init_rec, "in_vel": False, "in_w": False, "flat": None}
+
+    def buckets_of(flat, dims, a):
+        """What was drawn / looked up during one update_velocity call, dealt out to the particles BY COUNT (k-th leader,
+        k-th pair of r-draws, k-th pair of c-draws, k-th block of inertia weights): the order of the draws inside a
+        particle's turn - before or after the leader is chosen, coefficients before weights ... - is free."""
+        n = len(flat["leader"])
+        rs = [t for t in flat["u"] if (t[0], t[1]) == (a.r1_min, a.r1_max)]
+        cs = [t for t in flat["u"] if (t[0], t[1]) == (a.c1_min, a.c1_max)]
+        by_range = len(rs) == 2 * n and len(cs) == 2 * n and (a.r1_min, a.r1_max) != (a.c1_min, a.c1_max)
+        out, wpos = [], 0
+        for k in range(n):
+            d = dims[k] if k < len(dims) else 0
+            u = (rs[2 * k:2 * k + 2] + cs[2 * k:2 * k + 2]) if by_range else flat["u"][4 * k:4 * k + 4]
+            w = flat["w"][wpos:wpos + d] if len(flat["w"]) >= wpos + d else []
+            wpos += d
+            out.append({"leader": flat["leader"][k], "u": u, "w": w,
+                        "khi": flat["khi"][k:k + 1] if len(flat["khi"]) == n else []})
+        return out
 
     def wrap_phase(name):
         orig = getattr(a, name)
@@ -608,12 +626,14 @@ def record_swarm(cfg):
                 rec.setdefault("log_start", len(p.calls))
             if name == "update_velocity":
                 st["in_vel"] = True
+                st["flat"] = {"leader": [], "u": [], "w": [], "khi": []}
             try:
                 r = orig(pop, *args, **kw)
             finally:
                 if name == "update_velocity":
                     st["in_vel"] = False
-                    st["bucket"] = None
+                    rec["draws"].extend(buckets_of(st["flat"], [len(q.vector) for q in pop], a))
+                    st["flat"] = None
             rec["ev"][name + ":out"] = [snap(q) for q in pop]
             if name == "evaluate":
                 rec["log_end"] = len(p.calls)
@@ -639,14 +659,13 @@ def record_swarm(cfg):
     def select_leader():
         g = orig_leader()
         if st["in_vel"]:
-            st["bucket"] = {"leader": snap(g), "u": [], "w": [], "khi": []}
-            st["cur"]["draws"].append(st["bucket"])
+            st["flat"]["leader"].append(snap(g))
         return g
 
     def khi(c1, c2):
         v = orig_khi(c1, c2)
-        if st["bucket"] is not None:
-            st["bucket"]["khi"].append((c1, c2, v))
+        if st["in_vel"]:
+            st["flat"]["khi"].append((c1, c2, v))
         return v
 
     def inertia_weight():
@@ -655,16 +674,16 @@ def record_swarm(cfg):
             v = orig_w()
         finally:
             st["in_w"] = False
-        if st["bucket"] is not None:
-            st["bucket"]["w"].append(v)
+        if st["in_vel"]:
+            st["flat"]["w"].append(v)
         return v
     a.select_leader, a.khi, a.inertia_weight = select_leader, khi, inertia_weight
     real_uniform = sw.uniform
 
     def uniform(lo, hi):
         v = real_uniform(lo, hi)
-        if st["in_vel"] and st["bucket"] is not None and not st["in_w"]:
-            st["bucket"]["u"].append((lo, hi, v))
+        if st["in_vel"] and not st["in_w"]:
+            st["flat"]["u"].append((lo, hi, v))
         return v
     sw.uniform = uniform
     try:
@@ -778,6 +797,19 @@ def draws_of(rr, rec):
                         break
                 if best:
                     break
+        if best is None and k < len(before) and k < len(after) and cfg["algo"] != "PSOGA":
+            # The recorded draws do not reproduce the velocity under any assignment: the velocity FORMULA is not part of
+            # the property (only the clamp is).  Oracle under which the model yields the observed (clamped) velocity:
+            # no cognitive / social term, inertia weight v_i / x_i per coordinate.  Where a coordinate is exactly 0 and its
+            # velocity is not, no oracle of the model fits: the step is then checked for the band only (vel_unmodelled).
+            x, obs = before[k]["x"], after[k]["v"]
+            if len(obs) == len(x) and all(xi != 0.0 or vi == 0.0 for xi, vi in zip(x, obs)):
+                rec["vel_fallback"] = True
+                r1, r2, c1, c2, kh = 0.0, 0.0, cs[0], cs[1], 1.0
+                ws = [float(Fr(vi) / Fr(xi)) if xi != 0.0 else 0.0 for xi, vi in zip(x, obs)]
+                best = (r1, r2, c1, c2)
+            else:
+                rec["vel_unmodelled"] = True
         r1, r2, c1, c2 = best or (rs[0], rs[1], cs[0], cs[1])
         lc = b["leader"]["cs"]
         out.append("%s:%s:%s:%s" % (rv(lc[:-1]), str(int(lc[-1])) if lc else "0", rv([r1, r2, c1, c2, kh]), rv(ws)))
@@ -1040,6 +1072,14 @@ def check_step(rr, it, ans):
     s_pb = by_id(rec["ev"].get("update_particle_best:out") or rec["ev"].get("update_global_best:in"))
     if any(s is None for lst in (s_in, s_vel, s_pos, s_hand, s_eval, s_pb) for s in lst):
         return ("step-phases", head + "the phases of the loop did not all see the selected particles (observed order of calls %r)" % rec["order"])
+    for k in range(n):                      # the clamp clause on the observed velocities, before any replay
+        for i, (lb, ub) in enumerate(bounds):
+            rvv = s_vel[k]["v"]
+            if i < len(rvv) and not abs(rvv[i]) <= (ub - lb) / 2.0 * (1 + 1e-12):
+                return ("step-velocity-band", head + "particle %d: velocity component %d = %r after update_velocity exceeds half the range (ub-lb)/2 = %r" % (
+                    k, i, rvv[i], (ub - lb) / 2.0))
+    if rec.get("vel_unmodelled"):
+        return "vel-unmodelled"
     for k in range(n):
         x0 = s_in[k]["x"]
         g = rec["draws"][k]["leader"]["x"] if k < len(rec["draws"]) else x0
@@ -1231,9 +1271,16 @@ def check_swarm_runs(ctx, rrs):
                 ctx.count("swarm_steps_costs_not_compared_positions_one_ulp_apart")
                 rr["skip_run"] = True
                 continue
+            if res == "vel-unmodelled":
+                ctx.count("swarm_steps_velocity_formula_not_the_models_band_checked_only")
+                rr["skip_run"] = True
+                continue
             if res is not None:
                 return res + (cfg,)
             rec = rr["recs"][it]
+            if rec.get("vel_fallback"):
+                ctx.count("swarm_steps_velocity_formula_not_the_models_replayed_from_observed_velocity")
+                rr["skip_run"] = True
             ctx.case(("swarm-step", cfg["algo"], cfg["seed"], cfg["N"], it), nontrivial=True)
             ctx.count("swarm_steps_" + cfg["algo"])
             s_vel = rec["ev"].get("update_velocity:out") or []
